@@ -9,6 +9,8 @@
    empty-element syntax, prolog / epilog comments and PIs -- parses to exactly its meaning (view = sem:
    kinds, names, attributes in order with values, comment text, PI target / value, text, children counts), so two
    renderings with the same meaning give the same tree (layout_insensitive).  view is defined in Proofs/CstMain.v.
+   The same over Unicode (Spec/CstU.v: names, values, text, comments, PIs are lists of scalar values in the 5th-edition
+   Name / Char classes, rendered in UTF-8): parse_render_sem_u, layout_insensitive_u, render_valid_utf8.
    Statements are pinned here (copied verbatim from the proof files by tools/pin_props.py);
    each is re-proved by `exact` and followed by Print Assumptions. *)
 From Coq Require Import Ascii String.
@@ -17,7 +19,8 @@ Import ListNotations.
 From RX Require Import Generated.
 From RX.Model Require Import Base CharClass Stream Tokenizer Doc Builder Parse Api.
 From RX.Spec Require Cst.
-From RX.Proofs Require Import LexerProofs RejectProofs CstMain.
+From RX.Spec Require CstU.
+From RX.Proofs Require Import LexerProofs RejectProofs CstMain CstUMain.
 Open Scope N_scope.
 
 (* ---- Proofs/CstMain.v ---- *)
@@ -44,8 +47,37 @@ Theorem C03_layout_insensitive :
 Proof. exact layout_insensitive. Qed.
 Print Assumptions C03_layout_insensitive.
 
+(* ---- Proofs/CstUMain.v ---- *)
+Theorem C03_render_valid_utf8 :
+  forall c, CstU.wf_doc c = true -> valid_utf8_b (CstU.render c) = true.
+Proof. exact render_valid_utf8. Qed.
+Print Assumptions C03_render_valid_utf8.
+
+Theorem C03_parse_render_sem_u :
+  forall (c : Cst.doc) (opt : options),
+  CstU.wf_doc c = true ->
+  N.of_nat (length (CstU.sem c)) < nodes_limit opt ->          (* room for all nodes + the Root *)
+  N.of_nat (length (CstU.render c)) <= u32_max ->               (* the input is at most u32::MAX bytes long *)
+  exists d, parse (CstU.render c) opt = Ok d /\
+            view (CstU.render c) d = CstU.sem c /\
+            (* no namespaces in this fragment *)
+            (forall nd ns local ar nss, In nd (d_nodes d) -> nd_kind nd = KElement ns local ar nss -> ns = None) /\
+            (forall a, In a (d_attrs d) -> ad_ns_idx a = None).
+Proof. exact parse_render_sem_u. Qed.
+Print Assumptions C03_parse_render_sem_u.
+
+Theorem C03_layout_insensitive_u :
+  forall c1 c2 opt,
+  CstU.wf_doc c1 = true -> CstU.wf_doc c2 = true -> CstU.sem c1 = CstU.sem c2 ->
+  N.of_nat (length (CstU.sem c1)) < nodes_limit opt ->
+  N.of_nat (length (CstU.render c1)) <= u32_max -> N.of_nat (length (CstU.render c2)) <= u32_max ->
+  exists d1 d2, parse (CstU.render c1) opt = Ok d1 /\ parse (CstU.render c2) opt = Ok d2 /\
+                view (CstU.render c1) d1 = view (CstU.render c2) d2.
+Proof. exact layout_insensitive_u. Qed.
+Print Assumptions C03_layout_insensitive_u.
+
 (* ---- Proofs/LexerProofs.v ---- *)
-Module G1.
+Module G2.
 Local Notation token := Tokenizer.token.
 Theorem C03_parse_comment_post :
   forall (text : bytes), forall s acc s' acc', SInv text s ->
@@ -132,10 +164,10 @@ Theorem C03_parse_element_tokens :
 Proof. exact parse_element_tokens. Qed.
 Print Assumptions C03_parse_element_tokens.
 
-End G1.
+End G2.
 
 (* ---- Proofs/RejectProofs.v ---- *)
-Module G2.
+Module G3.
 Local Notation token := Tokenizer.token.
 Theorem C03_ok_document_shape :
   forall text dtd toks,
@@ -156,4 +188,4 @@ Theorem C03_ok_no_text_before_root :
 Proof. exact ok_no_text_before_root. Qed.
 Print Assumptions C03_ok_no_text_before_root.
 
-End G2.
+End G3.
